@@ -8,6 +8,7 @@ import (
 	"go/types"
 	"sort"
 	"strings"
+	"sync"
 
 	"golang.org/x/tools/go/ssa"
 )
@@ -25,23 +26,24 @@ type deferRec struct {
 }
 
 type Frame struct {
-	c        *Ctx
-	fn       *ssa.Function
-	env      map[ssa.Value]*Val
-	edge     map[[2]int]*State
-	rets     []retRec
-	defers   []deferRec
-	caller   *Frame
-	depth    int
-	li       *LoopInfo
-	contract *Contract // contract of fn when fn is the function under verification
-	top      bool
-	entry    *State         // state at entry (for old())
-	curLoops []*Loop        // unrolled loops currently being executed (innermost last)
-	siteOrd  map[ssa.Instruction]string
+	c         *Ctx
+	fn        *ssa.Function
+	env       map[ssa.Value]*Val
+	edge      map[[2]int]*State
+	rets      []retRec
+	defers    []deferRec
+	caller    *Frame
+	depth     int
+	li        *LoopInfo
+	contract  *Contract // contract of fn when fn is the function under verification
+	top       bool
+	entry     *State  // state at entry (for old())
+	curLoops  []*Loop // unrolled loops currently being executed (innermost last)
+	siteOrd   map[ssa.Instruction]string
 	isaWrites []isaWrite
-	view     *regView
-	onCall   func(f *Frame, st *State, call ssa.CallInstruction, args []*Val) // hook (assert-at, C06 ...)
+	view      *regView
+	lanes     *laneSpec
+	onCall    func(f *Frame, st *State, call ssa.CallInstruction, args []*Val) // hook (assert-at, C06 ...)
 }
 
 func (f *Frame) pos(in ssa.Instruction) token.Position {
@@ -140,9 +142,13 @@ func (f *Frame) setEdge(from *ssa.BasicBlock, slot int, st *State) {
 }
 
 var liveOutCache = map[*Loop][]ssa.Value{}
+var liveOutMu sync.Mutex
 
 func (f *Frame) liveOut(L *Loop) []ssa.Value {
-	if r, ok := liveOutCache[L]; ok {
+	liveOutMu.Lock()
+	r, ok := liveOutCache[L]
+	liveOutMu.Unlock()
+	if ok {
 		return r
 	}
 	var out []ssa.Value
@@ -162,7 +168,9 @@ func (f *Frame) liveOut(L *Loop) []ssa.Value {
 		}
 	}
 	sort.Slice(out, func(i, j int) bool { return out[i].Name() < out[j].Name() })
+	liveOutMu.Lock()
 	liveOutCache[L] = out
+	liveOutMu.Unlock()
 	return out
 }
 
@@ -275,6 +283,11 @@ func (f *Frame) runLoop(L *Loop) {
 		trip, isConst = 130, true
 	}
 	if len(invs) == 0 && isConst {
+		if trip == 65 {
+			if ls := f.laneSpecFor(); ls != nil && f.laneLoop(L, ls) {
+				return
+			}
+		}
 		f.unrollLoop(L, trip)
 		return
 	}
@@ -301,7 +314,7 @@ func (f *Frame) unrollLoop(L *Loop, trip int) {
 		st = f.entryState(h, inside)
 	}
 	f.clearInner(L)
-	f.c.W.stats.unrolled++
+	f.c.W.stat(func() { f.c.W.stats.unrolled++ })
 }
 
 func (f *Frame) runBlock(b *ssa.BasicBlock, st *State) {
